@@ -1,0 +1,106 @@
+//! Verification hooks: re-exports of crate-private items and thin public wrappers
+//! so an external harness can drive the keyspace actors, the RPC services and
+//! clients, the task distributor and the repair cycle deterministically.
+
+use std::net::SocketAddr;
+
+use datacake_node::{Clock, DatacakeHandle, MembershipChange, NodeId, RpcNetwork};
+
+pub use crate::keyspace::{
+    Del,
+    Diff,
+    KeyspaceActor,
+    KeyspaceGroup,
+    KeyspaceInfo,
+    LastUpdated,
+    MultiDel,
+    MultiSet,
+    PurgeDeletes,
+    Serialize,
+    Set,
+    CONSISTENCY_SOURCE_ID,
+    NUM_SOURCES,
+    READ_REPAIR_SOURCE_ID,
+};
+pub use crate::replication::poller_verif::{
+    context as repair_context,
+    exchange_diff,
+    exchange_modified,
+    exchange_removals,
+    repair_peers,
+    ExchangeDiff,
+    RepairTracker,
+};
+pub use crate::replication::{
+    VerifMutation as Mutation,
+    VerifReplicationCycleContext as ReplicationCycleContext,
+};
+pub use crate::rpc::services::consistency_impl::{
+    BatchPayload,
+    ConsistencyService,
+    Context,
+    MultiPutPayload,
+    MultiRemovePayload,
+    PutPayload,
+    RemovePayload,
+};
+pub use crate::rpc::services::replication_impl::{
+    FetchDocs,
+    FetchedDocs,
+    GetState,
+    KeyspaceOrSwotSet,
+    PollKeyspace,
+    ReplicationService,
+};
+pub use crate::rpc::{ConsistencyClient, ReplicationClient};
+use crate::replication::{TaskDistributor, TaskServiceContext};
+use crate::statistics::SystemStatistics;
+use crate::{ReplicatedStoreHandle, Storage};
+
+/// A public handle on the task distributor service.
+#[derive(Clone)]
+pub struct Distributor(TaskDistributor);
+
+impl Distributor {
+    pub fn membership_change(&self, changes: MembershipChange) {
+        self.0.membership_change(changes)
+    }
+
+    pub fn mutation(&self, mutation: Mutation) {
+        self.0.mutation(mutation)
+    }
+
+    pub fn kill(&self) {
+        self.0.kill()
+    }
+}
+
+/// Starts the real task distributor service.
+pub async fn start_distributor<S: Storage>(
+    clock: Clock,
+    network: RpcNetwork,
+    local_node_id: NodeId,
+    public_node_addr: SocketAddr,
+) -> Distributor {
+    let ctx = TaskServiceContext {
+        clock,
+        network,
+        local_node_id,
+        public_node_addr,
+    };
+    Distributor(crate::replication::start_task_distributor_service::<S>(ctx).await)
+}
+
+/// Builds the public store handle from its parts, without a chitchat cluster.
+pub fn store_handle<S: Storage>(
+    node: DatacakeHandle,
+    group: KeyspaceGroup<S>,
+    distributor: &Distributor,
+) -> ReplicatedStoreHandle<S> {
+    ReplicatedStoreHandle {
+        node,
+        group,
+        task_service: distributor.0.clone(),
+        statistics: SystemStatistics::default(),
+    }
+}
